@@ -27,12 +27,8 @@ func (e *AutoEscapeExtension) Init(env *stick.Env) error {
 			ct = stick.CoerceString(args[0])
 		}
 
-		if sval, ok := val.(stick.SafeValue); ok {
-			// (A nil pointer to a SafeValue implementation is not asked: its
-			// methods may dereference it. It prints as nothing anyway.)
-			if rv := reflect.ValueOf(val); !(rv.Kind() == reflect.Ptr && rv.IsNil()) && sval.IsSafe(ct) {
-				return val
-			}
+		if sval, ok := val.(stick.SafeValue); ok && isSafe(sval, ct) {
+			return val
 		}
 
 		escfn, ok := e.Escapers[ct]
@@ -44,6 +40,22 @@ func (e *AutoEscapeExtension) Init(env *stick.Env) error {
 		return stick.NewSafeValue(escfn(stick.CoerceString(val)), ct)
 	}
 	return nil
+}
+
+// isSafe reports whether val says it is safe for content type ct. A value
+// that cannot be asked (a nil pointer to a SafeValue implementation, a struct
+// embedding a nil SafeValue: the call fails before the method runs) is not; it
+// prints as nothing anyway.
+func isSafe(val stick.SafeValue, ct string) (safe bool) {
+	if rv := reflect.ValueOf(val); rv.Kind() == reflect.Ptr && rv.IsNil() {
+		return false
+	}
+	defer func() {
+		if recover() != nil {
+			safe = false
+		}
+	}()
+	return val.IsSafe(ct)
 }
 
 // NewAutoEscapeExtension returns an AutoEscapeExtension with Twig equivalent
